@@ -462,9 +462,15 @@ def q6_writers(ck):
         for x in walk(a0):
             if x[0] == "call" and x[1] == "core::fmt::rt::Argument::<'_>::new_display":
                 kinds.append(kind_of(w, tbw, x[2][0]))
-    ck.req(kinds == ["origin", "destination", "promotion"], "Q6.uci", "bestmove printer", w.where(), "the bestmove printer writes %s" % kinds)
-    low = [callee_name(t) for bb, t in live_calls(w) if callee_name(t).endswith("to_ascii_lowercase")]
-    ck.req(bool(low), "Q6.uci_lowercase", "bestmove printer", w.where(), "the bestmove printer does not lower-case the promotion letter")
+    lan_print = [t for bb, t in live_calls(w) if callee_name(t).endswith("notation::into_notation") and "lan::Lan" in " ".join(t.get("generics", []))]
+    if kinds == [None] and lan_print:
+        # the bestmove text is produced by the Lan writer itself (checked above)
+        ck.ok("Q6.uci", "bestmove printer", w.where(), "bestmove is printed through into_notation::<_, Lan>")
+        ck.ok("Q6.uci_lowercase", "bestmove printer", w.where(), "lower-casing is the Lan writer's")
+    else:
+        ck.req(kinds == ["origin", "destination", "promotion"], "Q6.uci", "bestmove printer", w.where(), "the bestmove printer writes %s" % kinds)
+        low = [callee_name(t) for bb, t in live_calls(w) if callee_name(t).endswith("to_ascii_lowercase")]
+        ck.req(bool(low), "Q6.uci_lowercase", "bestmove printer", w.where(), "the bestmove printer does not lower-case the promotion letter")
     # the book branch of `go` prints through the LAN writer
     ex = ck.body("weechess_engine::uci::Client::exec", "Q6")
     uses_lan = any("lan::Lan" in " ".join(t.get("generics", [])) for bb, t in live_calls(ex) if callee_name(t).endswith("notation::into_notation"))
